@@ -961,6 +961,77 @@ theorem delivery_exact_flow (c : Cfg) (maxQ : Nat) (sid : Nat) (ops : List Op) (
     · cases h
 
 
+/-! ### items → notification -/
+
+/-- what one item hands over on a tick on which the publishing interval elapsed: its whole queue
+(oldest first) if it is a reporting item that has something to report, nothing otherwise -/
+def handsOver (nodes : List (Nat × Nat)) (now : Nat) (resend : Bool) (it : MItem) : List Entry :=
+  let r := itemTick nodes now true resend it
+  if r.2 = .report then entriesOf r.1.handle r.1.q.queue else []
+
+theorem drain_spec (q : C24.Item) :
+    (match C24.drain q with
+     | (q', some d) => (q'.queue, d)
+     | (q', none) => (q'.queue, [])) = ([], q.queue) := by
+  unfold C24.drain
+  cases h : q.queue with
+  | nil => simp [h]
+  | cons a l => simp [h]
+
+theorem drain_queue_empty (q : C24.Item) : (C24.drain q).1.queue = [] := by
+  unfold C24.drain
+  cases h : q.queue with
+  | nil => simp [h]
+  | cons a l => simp [h]
+
+/-- the item after such a tick -/
+def afterTick (nodes : List (Nat × Nat)) (now : Nat) (resend : Bool) (it : MItem) : MItem :=
+  let r := itemTick nodes now true resend it
+  if r.2 = .report then { r.1 with q := (C24.drain r.1.q).1 } else r.1
+
+/-- **items → notification**: on an elapsed interval the data change notification is built from exactly
+the queues of the reporting items (in item order, each queue oldest first) and those queues are empty
+afterwards (`afterTick`, `drain_queue_empty`) — nothing stays behind and nothing is invented at this link. -/
+theorem tickItems_hands_over (nodes : List (Nat × Nat)) (now : Nat) (resend : Bool) (items : List MItem) :
+    (tickItems nodes now true resend items).2 = items.flatMap (handsOver nodes now resend) ∧
+    (tickItems nodes now true resend items).1 = items.map (afterTick nodes now resend) := by
+  induction items with
+  | nil => simp [tickItems]
+  | cons it rest ih =>
+    obtain ⟨ih1, ih2⟩ := ih
+    simp only [tickItems, List.flatMap_cons, List.map_cons, ih1, ih2, handsOver, afterTick]
+    by_cases hr : (itemTick nodes now true resend it).2 = .report
+    · simp only [hr, and_self, if_true]
+      have := drain_spec (itemTick nodes now true resend it).1.q
+      cases hd : C24.drain (itemTick nodes now true resend it).1.q with
+      | mk q' o =>
+        rw [hd] at this
+        cases o with
+        | none => simp only [] at this; simp [← (Prod.mk.inj this).2, entriesOf]
+        | some d => simp only [] at this; simp [← (Prod.mk.inj this).2]
+    · simp [hr]
+
+theorem afterTick_reported_empty (nodes : List (Nat × Nat)) (now : Nat) (resend : Bool) (it : MItem)
+    (h : (itemTick nodes now true resend it).2 = .report) : (afterTick nodes now resend it).q.queue = [] := by
+  simp only [afterTick, h, if_true]
+  exact drain_queue_empty _
+
+/-- an item that follows the publishing interval and is in Reporting mode samples on every elapsed
+interval: a changed value is appended to its queue by the C24 `enqueue` (whose theorems say what an
+overflow keeps), and is handed over in the same tick -/
+theorem interval_item_reports (nodes : List (Nat × Nat)) (now : Nat) (it : MItem) (v : Nat)
+    (hm : it.mode = .reporting) (hs : it.sampling = none) (hv : lookup nodes it.node = some v)
+    (hc : it.last ≠ some v) :
+    (itemTick nodes now true false it).2 = .report ∧
+    (itemTick nodes now true false it).1.q = C24.enqueue it.q v ∧
+    (itemTick nodes now true false it).1.last = some v := by
+  cases hl : it.last with
+  | none => simp [itemTick, hm, hs, checkValue, hv, hl]
+  | some l =>
+    have hne : ¬ v = l := by intro e; subst e; exact hc hl
+    simp [itemTick, hm, hs, checkValue, hv, hl, hne]
+
+
 /-! ### non-vacuity, the defect that was repaired -/
 
 /-- the probe of DESIGN §6: initial value and three writes over four intervals without a queued
